@@ -391,6 +391,11 @@ func (e *Exception) M__getattr__(name string) (Object, error) {
 	return e.Args, nil // FIXME All attributes are args!
 }
 
+// Get the Dict: attributes set on an exception instance live there
+func (e *Exception) GetDict() StringDict {
+	return e.Dict
+}
+
 func (e *Exception) M__str__() (Object, error) {
 	args, ok := e.Args.(Tuple)
 	if !ok || len(args) == 0 {
